@@ -9,7 +9,7 @@ from pyvc.engine import Engine
 META = {
     "level": "other",
     "technique": "contract-based deductive verification (pyvc, SMT) of the exit flag (rule_list.check_rules: violations flag set iff an error-severity violation was produced; number of rules checked == analyses run); all report formats of one real CLI run parsed back and compared as bounded stand-in",
-    "text": "Proved for all rule lists and analysis outcomes: check_rules sets the flag that becomes the exit status exactly when an error-severity rule produced a violation (warnings never set it) and counts exactly the rules it analysed. The report builders (string formatting, sorted(), JUnit/JSON/quality-report writers) are not under contract; their mutual consistency is checked as a labelled bounded stand-in: standard, syntastic and summary output, JSON, JUnit and quality report of real CLI runs with seeded built-in and user-defined severities are parsed back and compared, together with the printed counts and the exit status.",
+    "text": "Proved for all rule lists and analysis outcomes: the exit status apply_rules returns for an accepted file is the flag of the final check_rules (and True/1 for a rejected one); check_rules sets the flag that becomes the exit status exactly when an error-severity rule produced a violation (warnings never set it) and counts exactly the rules it analysed. The report builders (string formatting, sorted(), JUnit/JSON/quality-report writers) are not under contract; their mutual consistency is checked as a labelled bounded stand-in: standard, syntastic and summary output, JSON, JUnit and quality report of real CLI runs with seeded built-in and user-defined severities are parsed back and compared, together with the printed counts and the exit status.",
     "note": "Known finding (listed): the GitLab quality report maps severities by the NAME 'Error', so violations of a user-defined error-type severity are reported as 'minor'. Trusted: pyvc, SMT solvers; assumed abstract contract of Rule.analyze.",
 }
 
